@@ -118,33 +118,55 @@ def c19a(ctx):
     if len(writers) < 2 or len(readers) < 3:
         raise Undecided('size word: %d writers, %d readers found' % (len(writers), len(readers)))
     # V2 index entry: shift constants
+    # every place that names the boundary between the offset and the size part: shift amounts and low-bit masks (2**k - 1)
     shifts = []
-    for qn in (COMPACT + ':BundleV2._update_tile_offset', COMPACT + ':BundleV2._tile_offset_size'):
+    roles = set()
+    for qn, side in ((COMPACT + ':BundleV2._update_tile_offset', 'write'), (COMPACT + ':BundleV2._tile_offset_size', 'read')):
         fn = ctx.fn(qn)
         for n in fn.walk():
             if isinstance(n, ast.BinOp) and isinstance(n.op, (ast.LShift, ast.RShift)):
                 shifts.append((fn, type(n.op).__name__, try_const(n.right, repo, mod), n))
+                roles.add((side, 'size' if isinstance(n.op, ast.RShift) or side == 'write' else 'offset'))
+            elif isinstance(n, ast.BinOp) and isinstance(n.op, ast.BitAnd):
+                for m in (n.left, n.right):
+                    mv = try_const(m, repo, mod)
+                    if isinstance(mv, int) and mv > 0 and (mv & (mv + 1)) == 0:
+                        shifts.append((fn, 'Mask', mv.bit_length(), n))
+                        roles.add((side, 'offset'))
     vals = {v for _, _, v, _ in shifts}
     for fn, op, v, n in shifts:
         ctx.check(len(vals) == 1 and isinstance(v, int) and 0 < v < 64, '%s:shift-%s' % (fn.short, op),
                   'V2 index entries split size/offset at bit %s in writer and reader' % v, fn, n,
                   fail='V2 index entry shift constants differ: %s' % sorted(str(x) for x in vals))
-    if len(shifts) < 3:
-        raise Undecided('expected 3 shift expressions for the V2 index entry, found %d' % len(shifts))
+    if not {('write', 'size'), ('read', 'size'), ('read', 'offset')} <= roles:
+        raise Undecided('V2 index entry: writer shift, reader shift and reader offset extraction expected, found %s' % sorted(roles))
     # reader: offset = val - (size << k)  (the complement of writer offset + (size << k))
     fn = ctx.fn(COMPACT + ':BundleV2._tile_offset_size')
-    defs = Defs(fn.node)
-    offs = [v for v, sel in defs.of('offset')]
-    ok = bool(offs) and all(isinstance(v, ast.BinOp) and isinstance(v.op, ast.Sub) and
-                            contains(v.right, lambda x: isinstance(x, ast.BinOp) and isinstance(x.op, ast.LShift)) or
-                            (isinstance(v, ast.BinOp) and isinstance(v.op, ast.BitAnd)) for v in offs)
-    ctx.check(ok, 'BundleV2._tile_offset_size:offset-complement', 'reader recovers offset = value - (size << k)', fn)
+    # closed form of the (offset, size) result: offset is the entry minus / masked by the size part, size is the entry shifted down
+    pairs = [fn.canon.expr(r.value) for r in returns_of(fn.node) if r.value is not None]
+    pairs = [p for p in pairs if isinstance(p, ast.Tuple) and len(p.elts) == 2 and not all(isinstance(e, ast.Constant) for e in p.elts)]
+    ok = bool(pairs)
+    for p in pairs:
+        off, size = p.elts
+        ok = ok and isinstance(size, ast.BinOp) and isinstance(size.op, ast.RShift)
+        entry = unparse(size.left) if ok else None
+        ok = ok and isinstance(off, ast.BinOp) and (
+            (isinstance(off.op, ast.Sub) and unparse(off.left) == entry and isinstance(off.right, ast.BinOp) and isinstance(off.right.op, ast.LShift)
+             and unparse(off.right.left) == unparse(size)) or
+            (isinstance(off.op, ast.BitAnd) and entry in (unparse(off.left), unparse(off.right))))
+    ctx.check(ok, 'BundleV2._tile_offset_size:offset-complement', 'reader recovers offset = value - (size << k) (or value & low-bit mask), size = value >> k', fn)
     fnw = ctx.fn(COMPACT + ':BundleV2._update_tile_offset')
-    defs = Defs(fnw.node)
-    vals_ = [v for v, sel in defs.of('val')]
-    ok = bool(vals_) and all(isinstance(v, ast.BinOp) and isinstance(v.op, (ast.Add, ast.BitOr)) and
-                             contains(v, lambda x: isinstance(x, ast.BinOp) and isinstance(x.op, ast.LShift)) and
-                             contains(v, lambda x: isinstance(x, ast.Name) and x.id == 'offset') for v in vals_)
+    # closed form of what is packed: offset + (size << k), in either order, of the parameters offset and size
+    packs = [x for x in fnw.walk() if isinstance(x, ast.Call) and isinstance(x.func, ast.Attribute) and x.func.attr == 'pack' and x.args]
+    ok = bool(packs)
+    for x in packs:
+        v = fnw.canon.expr(x.args[-1])
+        ok = ok and isinstance(v, ast.BinOp) and isinstance(v.op, (ast.Add, ast.BitOr))
+        if ok:
+            sides = [v.left, v.right]
+            sh = [e for e in sides if isinstance(e, ast.BinOp) and isinstance(e.op, ast.LShift)]
+            pl = [e for e in sides if isinstance(e, ast.Name)]
+            ok = len(sh) == 1 and len(pl) == 1 and pl[0].id == 'offset' and unparse(sh[0].left) == 'size'
     ctx.check(ok, 'BundleV2._update_tile_offset:entry-form', 'writer stores offset + (size << k)', fnw)
     # header tuples vs formats
     for hdr, fmtname in (('BUNDLE_V1_HEADER', 'BUNDLE_V1_HEADER_STRUCT_FORMAT'), ('BUNDLE_V2_HEADER', 'BUNDLE_V2_HEADER_STRUCT_FORMAT')):
